@@ -5,8 +5,9 @@
    enable_rank or the one the builder RankSupport::new produces (a loaded foreign support is C19's subject);
    [rank_ok b B] (Proofs/RankProof.v) abbreviates  exists rs, bv_rank b = Some rs /\ rank_new b = Ok rs. *)
 From Coq Require Import NArith List Bool.
-Require Import SDS.Model.Mach SDS.Model.Bits SDS.Model.Raw SDS.Model.IntVec SDS.Model.BitVec.
+Require Import SDS.Model.Mach SDS.Model.Bits SDS.Model.Raw SDS.Model.IntVec SDS.Model.BitVec SDS.gen.Consts.
 Require Import SDS.Spec.BitSeq SDS.Proofs.BitsProof SDS.Proofs.BVCommon SDS.Proofs.RankProof.
+Require Import SDS.Proofs.OneIterProof SDS.Proofs.SelectProof.
 Import ListNotations.
 Open Scope N_scope.
 
@@ -95,3 +96,179 @@ Example C01_example_rank :
 Proof. vm_compute. repeat split. Qed.
 
 (* ---- select side below ---- *)
+
+(* the generated constants the select proofs are about *)
+Theorem C01_select_consts :
+  select_SUPERBLOCK_SIZE = 4096 /\ select_SUPERBLOCK_MASK = N.ones 12 /\
+  select_BLOCKS_IN_SUPERBLOCK = 64 /\ select_BLOCK_SIZE = 64 /\ select_BLOCK_MASK = N.ones 6 /\
+  select_SUPERBLOCK_SIZE = select_BLOCKS_IN_SUPERBLOCK * select_BLOCK_SIZE.
+Proof. exact select_consts_ok. Qed.
+
+(* A. Transformation::word_unchecked: word k of the (identity or complemented) sequence, the partial
+   last word masked; an index past the last word leaves the buffer *)
+Theorem C01_word_view : forall t b B k, bv_repr b B ->
+  (k < (lenB B + 63) / 64 ->
+     exists w, t_word_unchecked t b k = Ok w /\ w < 2 ^ 64 /\
+               (forall j, j < 64 -> N.testbit w j = bitB (t_bits t B) (64 * k + j)) /\
+               wbits w = map (fun j => bitB (t_bits t B) (64 * k + N.of_nat j)) (seq 0 64)) /\
+  ((lenB B + 63) / 64 <= k -> t_word_unchecked t b k = OOB SITE_RAW_WORD).
+Proof.
+  intros t b B k Hrep. split.
+  - intros Hk. destruct (t_word_view t b B k Hrep Hk) as (w & E & Hseg).
+    exists w. split; [exact E|]. split; [exact (proj1 Hseg)|]. split; [|exact (wseg_full_wbits _ _ _ Hseg)].
+    intros j Hj. rewrite (proj2 Hseg j Hj).
+    destruct (N.leb_spec 0 j) as [_|F]; [|exfalso; revert F; apply N.nlt_0_r].
+    apply N.ltb_lt in Hj. rewrite Hj. reflexivity.
+  - exact (t_word_oob t b B k Hrep).
+Qed.
+Print Assumptions C01_word_view.
+
+(* C. SelectSupport::new succeeds for every vector, both transformations, both select paths, both
+   modes; the result describes the set bits ([ss_valid]) and has ceil(ones/4096) superblocks *)
+Theorem C01_select_new : forall sp m t b B, bv_repr b B ->
+  exists s, select_new sp m t b = Ok s /\ ss_valid t B s /\
+            ss_superblocks s = (count (t_bits t B) + 4095) / 4096.
+Proof. exact select_new_spec. Qed.
+Print Assumptions C01_select_new.
+
+(* select_unchecked on a valid support: the position of the one of rank r, for every r below the count.
+   No assumption on which superblocks are long and which are short. *)
+Theorem C01_select_unchecked : forall sp m t s b B r, bv_repr b B -> ss_valid t B s ->
+  r < count (t_bits t B) ->
+  exists p, select_unchecked sp m t s b r = Ok p /\ nth_opt (ones (t_bits t B)) r = Some p.
+Proof. exact select_unchecked_spec. Qed.
+Print Assumptions C01_select_unchecked.
+
+(* enable_select / enable_select_zero *)
+Theorem C01_enable_select : forall sp m t b B, bv_repr b B ->
+  exists b', bv_enable_select_t sp m t b = Ok b' /\ bv_repr b' B /\ bv_same b b' /\
+    bv_rank b' = bv_rank b /\
+    match t with Identity => bv_select_zero b' = bv_select_zero b | Complement => bv_select b' = bv_select b end /\
+    (t_support t b = None -> select_ok sp m t b' B) /\
+    (forall s0, t_support t b = Some s0 -> b' = b).
+Proof. exact bv_enable_select_t_spec. Qed.
+Print Assumptions C01_enable_select.
+
+(* enable_select then enable_select_zero on a vector without select supports: both supports valid,
+   data, count and rank support untouched *)
+Theorem C01_enable_both_select : forall sp m b1 B, bv_repr b1 B -> bv_select b1 = None -> bv_select_zero b1 = None ->
+  exists b2 b3, bv_enable_select_t sp m Identity b1 = Ok b2 /\ bv_enable_select_t sp m Complement b2 = Ok b3 /\
+    bv_repr b3 B /\ bv_same b1 b3 /\ bv_rank b3 = bv_rank b1 /\
+    select_ok sp m Identity b3 B /\ select_ok sp m Complement b3 B.
+Proof. exact bv_enable_both_select. Qed.
+Print Assumptions C01_enable_both_select.
+
+(* select(r) = select1 B r for EVERY r (None from count_ones on), whichever select path / mode built
+   the support (sp0, m0) and whichever answers the query (sp, m) *)
+Theorem C01_select : forall sp0 m0 sp m b B r, bv_repr b B ->
+  (r < count B -> select_ok sp0 m0 Identity b B) ->
+  bv_select_t sp m Identity b r = Ok (select1 B r).
+Proof. intros sp0 m0 sp m b B r. exact (bv_select_t_spec sp0 m0 sp m Identity b B r). Qed.
+Print Assumptions C01_select.
+
+Theorem C01_select_zero : forall sp0 m0 sp m b B r, bv_repr b B ->
+  (r < count (map negb B) -> select_ok sp0 m0 Complement b B) ->
+  bv_select_t sp m Complement b r = Ok (select0 B r).
+Proof. intros sp0 m0 sp m b B r. exact (bv_select_t_spec sp0 m0 sp m Complement b B r). Qed.
+Print Assumptions C01_select_zero.
+
+(* select_iter / select_zero_iter: the iterator stands at rank r *)
+Theorem C01_select_iter : forall sp0 m0 sp m t b B r, bv_repr b B ->
+  (r < count (t_bits t B) -> select_ok sp0 m0 t b B) ->
+  exists it, bv_select_iter_t sp m t b r = Ok it /\ oi_inv t B it /\
+             oi_mid t B it = skipN (index_from (ones (t_bits t B)) 0) r.
+Proof. exact bv_select_iter_t_spec. Qed.
+Print Assumptions C01_select_iter.
+
+(* B. one_iter() / zero_iter() start with all ranked positions, the empty iterator with none *)
+Theorem C01_one_iter_start : forall t b B, bv_repr b B ->
+  (oi_inv t B (oi_start t b) /\ oi_mid t B (oi_start t b) = index_from (ones (t_bits t B)) 0) /\
+  (oi_inv t B (oi_empty t b) /\ oi_mid t B (oi_empty t b) = []).
+Proof. intros t b B H. split; [exact (oi_start_inv t b B H)|exact (oi_empty_inv t b B H)]. Qed.
+Print Assumptions C01_one_iter_start.
+
+(* B. every call on an iterator satisfying the invariant behaves as the same call on the deque
+   [oi_mid] of unvisited (rank, position) pairs, keeps the invariant, and is Ok (never out of fuel,
+   never outside the words, no overflow) - next, nth n for EVERY n, next_back, len *)
+Theorem C01_one_iter : forall sp m t b B it, bv_repr b B -> oi_inv t B it ->
+  (exists it', oi_next_f t b it = Ok (it', hd_error (oi_mid t B it)) /\
+               oi_inv t B it' /\ oi_mid t B it' = tl (oi_mid t B it)) /\
+  (forall n, exists it', oi_nth sp m t b it n = Ok (it', nth_opt (oi_mid t B it) n) /\
+               oi_inv t B it' /\ oi_mid t B it' = skipN (oi_mid t B it) (n + 1)) /\
+  ((oi_mid t B it = [] /\ oi_next_back m t b it = Ok (it, None)) \/
+   (exists it' x, oi_next_back m t b it = Ok (it', Some x) /\ oi_inv t B it' /\
+                  oi_mid t B it = oi_mid t B it' ++ [x])) /\
+  oi_len it = lenN (oi_mid t B it).
+Proof.
+  intros sp m t b B it Hrep Hinv. split; [exact (oi_next_spec t b B it Hrep Hinv)|].
+  split; [intros n; exact (oi_nth_spec sp m t b B it n Hrep Hinv)|].
+  split; [exact (oi_next_back_spec m t b B it Hrep Hinv)|exact (oi_len_spec t B it Hinv)].
+Qed.
+Print Assumptions C01_one_iter.
+
+(* the invariant, in the words of the comments of the source *)
+Theorem C01_one_iter_invariant : forall t B it, oi_inv t B it -> fst (oi_next it) < fst (oi_limit it) ->
+  (exists p, nth_opt (ones (t_bits t B)) (fst (oi_next it)) = Some p /\ snd (oi_next it) <= p /\
+             forall x, snd (oi_next it) <= x < p -> bitB (t_bits t B) x = false) /\
+  (exists q, nth_opt (ones (t_bits t B)) (fst (oi_limit it) - 1) = Some q /\ q < snd (oi_limit it) /\
+             forall x, q < x < snd (oi_limit it) -> bitB (t_bits t B) x = false) /\
+  snd (oi_limit it) <= lenB (t_bits t B).
+Proof. exact oi_inv_source_comments. Qed.
+Print Assumptions C01_one_iter_invariant.
+
+(* collecting a fresh iterator yields exactly the ranked positions *)
+Theorem C01_one_iter_collect : forall t b B fuel, bv_repr b B ->
+  (length (index_from (ones (t_bits t B)) 0) < fuel)%nat ->
+  oi_collect t b fuel (oi_start t b) = Ok (index_from (ones (t_bits t B)) 0).
+Proof. exact oi_collect_all. Qed.
+Print Assumptions C01_one_iter_collect.
+
+(* predecessor / successor for EVERY v < 2^64 (v >= len and v = 2^64 - 1 included): the remaining
+   items of the returned iterator are pred_suffix / succ_suffix, so the first item is pred1 / succ1.
+   The rank half of the property enters as the premise on bv_rank_q. *)
+Theorem C01_pred_succ : forall sp0 m0 sp m b B v, bv_repr b B -> select_ok sp0 m0 Identity b B ->
+  (forall i, i < 2 ^ 64 -> bv_rank_q b i = Ok (rank1 B i)) -> v < 2 ^ 64 ->
+  (exists it, bv_predecessor sp m b v = Ok it /\ oi_inv Identity B it /\ oi_mid Identity B it = pred_suffix B v) /\
+  (exists it, bv_successor sp m b v = Ok it /\ oi_inv Identity B it /\ oi_mid Identity B it = succ_suffix B v) /\
+  (exists it it', bv_predecessor sp m b v = Ok it /\ oi_next_f Identity b it = Ok (it', pred1 B v)) /\
+  (exists it it', bv_successor sp m b v = Ok it /\ oi_next_f Identity b it = Ok (it', succ1 B v)).
+Proof.
+  intros sp0 m0 sp m b B v H1 H2 H3 H4.
+  split; [exact (bv_predecessor_spec sp0 m0 sp m b B v H1 H2 H3 H4)|].
+  split; [exact (bv_successor_spec sp0 m0 sp m b B v H1 H2 H3 H4)|].
+  split; [exact (bv_predecessor_first sp0 m0 sp m b B v H1 H2 H3 H4)|exact (bv_successor_first sp0 m0 sp m b B v H1 H2 H3 H4)].
+Qed.
+Print Assumptions C01_pred_succ.
+
+(* ---- non-vacuity: a concrete 64-bit vector ---- *)
+
+Definition c01_w : N := 9223372036854776865.   (* bits 0, 5, 10, 63 *)
+Definition c01_b0 : bitvec := bv_from_raw (mkraw 64 [c01_w]).
+Definition c01_B : list bool := bits_of 64 [c01_w].
+
+Lemma c01_b0_repr : bv_repr c01_b0 c01_B.
+Proof.
+  unfold bv_repr, raw_wf, c01_b0, bv_from_raw. cbn [bv_data bv_ones bv_len rlen rdata].
+  split; [|split; [reflexivity|vm_compute; reflexivity]].
+  split; [reflexivity|]. split; [repeat constructor|]. split; [|reflexivity].
+  intros p Hp. unfold bit, getw.
+  assert (E : nthN [c01_w] (p / 64) = None).
+  { apply nthN_None_ge. change (lenN [c01_w]) with 1. apply N.div_le_lower_bound; [discriminate|exact Hp]. }
+  rewrite E. apply N.bits_0.
+Qed.
+
+Example C01_select_example :
+  exists b, bv_enable_select_t Pdep Debug Identity c01_b0 = Ok b /\
+            bv_repr b c01_B /\ select_ok Pdep Debug Identity b c01_B /\
+            bv_select_t Portable Release Identity b 2 = Ok (Some 10) /\
+            bv_select_t Pdep Debug Identity b 4 = Ok None /\
+            select1 c01_B 3 = Some 63.
+Proof.
+  destruct (C01_enable_select Pdep Debug Identity c01_b0 c01_B c01_b0_repr)
+    as (b & E & Hrep & _ & _ & _ & Hok & _).
+  exists b. split; [exact E|]. split; [exact Hrep|]. split; [exact (Hok eq_refl)|].
+  split; [|split].
+  - rewrite (C01_select Pdep Debug Portable Release b c01_B 2 Hrep (fun _ => Hok eq_refl)). vm_compute. reflexivity.
+  - rewrite (C01_select Pdep Debug Pdep Debug b c01_B 4 Hrep (fun _ => Hok eq_refl)). vm_compute. reflexivity.
+  - vm_compute. reflexivity.
+Qed.
